@@ -1064,7 +1064,7 @@ class Executor:
             absb = z3.If(Bt >= 0, Bt, -Bt)
             cs.append(z3.If(A >= 0, r >= 0, r <= 0))
             cs.append(z3.And(r < absb, r > -absb))
-        st.define((q, r), cs)
+        st.define((q, r), cs, heavy=not is_conc(b))
         st.divcache[key] = (q, r, a, b)
         st.divlog.append((a, b, q, r))
         return q, r
@@ -1679,7 +1679,7 @@ class Executor:
 
     def do_fork(self, st, f):
         alts = f.alts
-        if len(alts) == 1 and alts[0][0] == "enum":
+        if len(alts) == 1 and isinstance(alts[0][0], str) and alts[0][0] == "enum":
             _, term, what = alts[0]
             # enumerate feasible concrete values of `term`
             vals = self.enumerate_values(st, term, what)
